@@ -161,6 +161,11 @@ def run (args : List String) : String :=
   | ["closed-ops", _] =>
     "close=ok next=closed until=closed queue=closed flush=closed send=closed late=closed latewrite=ok written=0"
   | ["double-close", _] => if closeChecksClosedFirst then "close=ok close2=closed" else "close=ok panic"
+  -- a receiver waiting in `NextPackage` holds the read lock for the whole call: `Close` waits for its write
+  -- lock until the receiver has returned with its context's error; without the lock `Close` closes the
+  -- queues under the receiver, whose select then yields a nil package and no error
+  | ["close-waiting", _] =>
+    if nextPackageHoldsRLock then "recv=ctx close=ok after=closed" else "recv=ok close=ok after=closed"
   | ["conn-close", n, _] | ["conn-close", n, _, _] =>   -- fourth argument: a logical channel closed earlier
     match n.toNat? with
     | some n =>
